@@ -41,7 +41,8 @@ Record project := {
   p_files : list (list str);    (* every regular file below srcdir (sources included) *)
   p_nitpick : list str;         (* targets t with ("myst", t) in nitpick_ignore *)
   p_url_schemes : list str;     (* keys of myst_url_schemes *)
-  p_dirhtml : bool }.           (* builder: false = html, true = dirhtml *)
+  p_dirhtml : bool;             (* builder: false = html, true = dirhtml *)
+  p_all_external : bool }.      (* myst_all_links_external (commonmark_only / gfm_only are off) *)
 
 Fixpoint find_doc (ds : list docrec) (n : str) : option docrec :=
   match ds with
@@ -139,6 +140,9 @@ Definition s_inv : str := [105; 110; 118].                          (* "inv" *)
 Definition s_css : str := [58; 47; 47].                             (* "://" *)
 
 Definition nonempty (s : str) : bool := negb (is_nil s).
+(* Python truthiness of an optional string: None and "" are false *)
+Definition truthy_ostr (o : option str) : option str :=
+  match o with Some s => if nonempty s then Some s else None | None => None end.
 
 Definition abs_str (P : project) (loc : fsloc) : str :=
   match loc with
@@ -199,7 +203,7 @@ Definition render_link_project (P : project) (d : docrec) (l : link) : cls :=
     match abs_path P d path_dest with
     | None => C_nofile path_dest href
     | Some loc =>
-        match path2doc (p_suffixes P) loc with
+        match truthy_ostr (path2doc (p_suffixes P) loc) with    (* if not docname: *)
         | None => C_nofile (abs_str P loc) href
         | Some docname => C_doc docname path_id
         end
@@ -221,7 +225,7 @@ Definition render_link_unknown (P : project) (d : docrec) (l : link) : cls :=
   let dest := handle_relative_docs P d l (l_dest l) in
   let '(path_dest, path_id) := split_dest dest in
   if match abs_path P d path_dest with Some loc => is_file P loc | None => false end then
-    match path2doc (p_suffixes P) (relfn2path (p_srcdir P) (d_dir d) path_dest) with
+    match truthy_ostr (path2doc (p_suffixes P) (relfn2path (p_srcdir P) (d_dir d) path_dest)) with   (* if docname: *)
     | Some docname => C_doc docname path_id
     | None => C_download path_dest path_dest
     end
@@ -237,7 +241,8 @@ Definition opt_str_eqb (o : option str) (s : str) : bool :=
 
 Definition render_link (P : project) (d : docrec) (l : link) : cls :=
   let href := l_dest l in
-  if startswith href s_hash then C_anchor href
+  if p_all_external P then C_url href
+  else if startswith href s_hash then C_anchor href
   else
     let scheme := scheme_of href in
     if match scheme with Some s => mem_str s (p_url_schemes P) | None => false end then C_url href
